@@ -34,6 +34,7 @@ func universe(n int) []*triple.Triple {
 		model.T(a, model.PT("p", model.T2), model.ON(b)),              // 2 other instant
 		model.T(a, p, model.OL(model.L(literal.Int64, int64(0)))),     // 3
 		model.T(a, p, model.OL(model.L(literal.Float64, float64(0)))), // 4 same bytes, other type
+		model.T(a, p, model.OL(model.L(literal.Int64, int64(1)<<40))), // same type, a value whose encoding is longer (identity must not depend on what was hashed before)
 		model.T(a, p, model.OL(model.L(literal.Text, "abc"))),         // 5
 		model.T(a, p, model.OL(model.L(literal.Blob, []byte("abc")))), // 6 same bytes, other type
 		model.T(model.N("/a/b", "c"), p, model.ON(b)),                 // 7
@@ -627,7 +628,7 @@ func main() {
 	r.MaybeReplay()
 	r.Assume("identity of triples is judged structurally through exported accessors (type, id, kind, instant, literal type+value), never through UUID() or String()")
 	r.Assume("successor states are produced by replaying the BFS-shortest operation path on a fresh memory store; merged model states are licensed by checking every transition out of every state")
-	level1(r, r.Pick(11, 15))
+	level1(r, r.Pick(12, 16))
 	level2(r, r.Pick(12, 30))
 	r.Set("rule", "BFS over StoreModel states; level 1: all subsets of the triple universe x all add/remove batches of size 0-2; level 2: store with 2 names, handle slots incl. stale handles, to fixpoint")
 	r.Finish()
